@@ -49,7 +49,7 @@ def nontrivial(r):
 
 
 _whole.install(globals(), "C02",
-               text="History machine, every accepted event stream: every stored individual and every seed names an evaluation made for exactly its genome that returned exactly its fitness; "
+               text="Population model (update_genome / evaluate / DE keep-fitness rule, any objective): after update + evaluate every row carries the objective value of its own genome, only invalidated rows are re-evaluated, a trial keeps its parent's fitness only for an identical genome (compared with the real Population and Crossover under vm_compute). History machine, every accepted event stream: every stored individual and every seed names an evaluation made for exactly its genome that returned exactly its fitness; "
                     "every deme's history (and the evaluation log) only grows — recorded generations never change. Tie: history replay of recorded runs (bit-exact genome identity), the recorder "
                     "hashes every generation when it first sees it and again at every later snapshot (in-place mutation / buffer aliasing shows up as a changed hash), and the monitor "
                     "re-evaluates every stored genome, seed, candidate and result with a pure copy of the objective.",
